@@ -469,3 +469,11 @@ CHECKS['C01'].update({
     'note': TB + "strings the strict reader rejects (reversed ranges, `!(...)` nested in another group or followed by wildcards, …) are outside the documented "
             "grammar / the stated scope (see Spec/README.md, DESIGN §11.5) and remain tied by K1 / K1' sampling. Known findings KF-D1, KF-D3.",
 })
+_c02b = CHECKS['C02']['text']
+CHECKS['C02'].update({
+    'text': _c02b.replace("C02_faithful_globfree / _glob: the same two statements for the regex the FAITHFUL PORT of WcParse emits on the printed "
+                          "pattern", "C02_read_globfree / C02_read_glob (pass_read_path): the same two statements for the regex the FAITHFUL PORT of WcParse emits on "
+                          "EVERY STRING the strict path reader accepts (runs of separators, `**/**` merged, `a**b`, escapes, every bracket spelling, `***` under "
+                          "GLOBSTARLONG; the old side condition noGG is now a consequence of the reading), hence code = spec on every accepted path pattern "
+                          "(C02_read_spec / _spec_glob); C02_faithful_globfree / _glob: the earlier form on the printed pattern"),
+})
